@@ -29,7 +29,7 @@ var admins = []adminT{
 	{"ResendRequest", "2", func(p *rig.Peer) []byte { return p.Resend(1, 1) }, rig.TBeginSeq},
 }
 
-var damages = []string{"bad-checksum", "bad-length", "non-numeric-body-field", "non-numeric-header-field", "bad-checksum+missing-seqnum", "bad-checksum+non-numeric-seqnum", "bad-length+missing-seqnum", "none(state-not-permitted)", "state-not-permitted+missing-seqnum", "state-not-permitted+non-numeric-seqnum"}
+var damages = []string{"bad-checksum", "bad-length", "non-numeric-body-field", "non-numeric-header-field", "bad-checksum+missing-seqnum", "bad-checksum+non-numeric-seqnum", "bad-length+missing-seqnum", "none(state-not-permitted)", "state-not-permitted+missing-seqnum", "state-not-permitted+non-numeric-seqnum", "non-numeric-seqnum", "empty-seqnum", "empty-numeric-body-field"}
 
 func damage(kind string, a adminT, m []byte) ([]byte, bool, bool) {
 	// returns message, ok, seqUsable
@@ -61,6 +61,16 @@ func damage(kind string, a adminT, m []byte) ([]byte, bool, bool) {
 		return rig.Reframe(m, nil, map[string]bool{rig.TSeq: true}), true, false
 	case "state-not-permitted+non-numeric-seqnum":
 		return rig.Reframe(m, map[string]string{rig.TSeq: "7z"}, nil), true, false
+	case "non-numeric-seqnum":
+		// correctly framed, whatever the state: the sequence number itself cannot be parsed
+		return rig.Reframe(m, map[string]string{rig.TSeq: "7z"}, nil), true, false
+	case "empty-seqnum":
+		return rig.Reframe(m, map[string]string{rig.TSeq: ""}, nil), true, false
+	case "empty-numeric-body-field":
+		if a.numeric == "" {
+			return nil, false, true
+		}
+		return rig.Reframe(m, map[string]string{a.numeric: ""}, nil), true, true
 	}
 	return nil, false, true
 }
@@ -84,7 +94,7 @@ type cell struct {
 
 func main() {
 	c := vk.Init("C16")
-	c.Rule("matrix: admin type {Logon, Logout, Heartbeat, TestRequest, ResendRequest} x damage {wrong checksum, wrong body length, non-numeric body field, non-numeric header field, wrong checksum/length + missing or non-numeric MsgSeqNum, undamaged but not permitted in the state, not permitted in the state and MsgSeqNum missing or non-numeric (correct framing)} x session state {waiting, logged on, logged on with the session's own TestRequest pending (real time, N=1; timer Heartbeats/TestRequests are not counted as answers)} x role x position (after 0..3 valid messages) x follow-up valid traffic; tag 35 itself is never damaged. Oracle per offending step: exactly one message emitted and it is a Reject with 45 = the offending 34 (or 371 = 34 when 34 is missing/non-numeric); IsLogged unchanged; context not cancelled and handler still running; the following valid message has its normal effect (TestRequest answered when logged on, good Logon accepted when waiting). distinct = matrix cell x position x seqnum; non-trivial = all")
+	c.Rule("matrix: admin type {Logon, Logout, Heartbeat, TestRequest, ResendRequest} x damage {wrong checksum, wrong body length, non-numeric body field, non-numeric header field, wrong checksum/length + missing or non-numeric MsgSeqNum, undamaged but not permitted in the state, not permitted in the state and MsgSeqNum missing or non-numeric (correct framing), correct framing with a non-numeric or EMPTY MsgSeqNum value, an EMPTY numeric body field} x session state {waiting, logged on, logged on with the session's own TestRequest pending (real time, N=1; timer Heartbeats/TestRequests are not counted as answers)} x role x position (after 0..3 valid messages) x follow-up valid traffic; tag 35 itself is never damaged. Oracle per offending step: exactly one message emitted and it is a Reject with 45 = the offending 34 (or 371 = 34 when 34 is missing/non-numeric); IsLogged unchanged; context not cancelled and handler still running; the following valid message has its normal effect (TestRequest answered when logged on, good Logon accepted when waiting). distinct = matrix cell x position x seqnum; non-trivial = all")
 	c.Assume("a message whose only defect is a missing sequence number is not in the statement's list; 'state-not-permitted' cells are: Heartbeat/TestRequest/ResendRequest/Logout while waiting, Logon while logged on")
 	reps := c.Pick(10, 120)
 	var cells []cell
